@@ -162,6 +162,14 @@ class Ncp:
     def attach(self, ash):
         self.ash = ash
 
+    def set_version(self, version: int):
+        """The stick was re-flashed with firmware speaking another EZSP version (durable state is kept)."""
+        self.V = version
+        self.layout = Z.layout_of(version)
+        self.cmds, self.by_id = tables(version)
+        self.has_token_data = version >= 9
+        self.negotiated = False
+
     # ------------------------------------------------------------ ASH upper layer
     def ncp_reset(self):
         self.resets += 1
